@@ -222,6 +222,10 @@ func runC10(c *Cfg) {
 		sc.Rewire = nil // the flattened twin is built once; Connect calls between runs are C03's
 		if i%4 == 0 {
 			failSomewhere(rg.IntN(1<<30), sc) // inner flows ending by error
+			ek := errKindCycle[(i/4)%len(errKindCycle)] // ... of every kind: the error that comes out of the nested arrangement is the one the flat one gives
+			for n := range sc.Nodes {
+				sc.Nodes[n].ErrKind = ek
+			}
 		}
 		fs, nested, _, mrs, proxies := diffNestedFlat(sc)
 		r.EvalN(int64(2 * len(nested)))
